@@ -1,0 +1,24 @@
+//go:build verif
+
+package client
+
+// Contracts checked by /verif's govc.  Comments only; build tag "verif".
+
+//@ unit client
+//@
+//@ // ===== C13: a document identifier is a deterministic function of the document's canonical bytes and
+//@ // the schema root: the functions on that path are compositions of deterministic operations (canonical
+//@ // CBOR, SHA-256 CID, UUIDv5 are assumed deterministic: A7/A9), with no clock, randomness, node
+//@ // identity, map iteration or goroutine on the way
+//@ discipline deterministic (*Document).GenerateDocID, NewDocIDV0, (*Document).Bytes allow (*client.Document).Bytes, (*client.Document).toMap, client.CborEncodingOptions, (cbor.EncOptions).EncMode, (cbor.EncMode).Marshal, cid.NewSHA256CidV1, client.NewDocIDV0, uuid.NewV5, (cid.Cid).String tags C13
+//@ extern (*client.Document).Bytes(d) -> (b, e)
+//@   pure
+//@ extern cid.NewSHA256CidV1(b) -> (c, e)
+//@ func (*Document).GenerateDocID -> (id, err)
+//@   assert before call#1 NewDocIDV0: arg0 == res(NewSHA256CidV1, 1, 0) && res(NewSHA256CidV1, 1, 1) == nil
+//@   assert before call#1 NewSHA256CidV1: len(arg0) == len(res(Bytes, 1, 0)) + len(doc.collectionDefinition.Schema.Root)
+//@   tags C13
+//@ func NewDocIDV0 -> (id)
+//@   ensures id.cid == dataCID && id.version == DocIDV0 && id.uuid == res(NewV5, 1, 0)
+//@   assert before call#1 NewV5: arg1 == res(String, 1, 0) && callarg(String, 1, 0) == dataCID && arg0 == SDNNamespaceV0
+//@   tags C13
